@@ -36,6 +36,7 @@ fn run_line(line: &str) -> String {
         "PX" => h263_cases::history(&rest, true),
         "R" => reader_cases::script(&rest),
         "PP" => h263_cases::pipeline(&rest),
+        "SZ" => h263_cases::plane_sizes(&rest),
         "S" => h263_cases::schedule(&rest),
         _ => format!("bad-op {}", kind),
     }
